@@ -17,6 +17,8 @@ for f in sorted(glob.glob('/verif/seeded/*/meta.json')):
     globals()["own_n"] = own_n
     if m.get("missed_at_first"):
         det += " (missed at first: %s)" % m["missed_at_first"]
+    if m.get("not_detected_by_own_check_note"):
+        det += " (not reported by %s's own check: %s)" % (m["property"], m["not_detected_by_own_check_note"])
     if m.get("strengthened_from_report"):
         det += " (%s)" % m["strengthened_from_report"]
     rows.append("| %s | %s | %s | %s |" % (name, summ, needs, det))
@@ -38,9 +40,9 @@ interfaces, non-default Config getters - and the interaction of two features);
 R/S (code many endpoints share - helpers of the root package, the shipped
 session types, the response writers, token/jwt, token/hmac, the reference store
 - and what is written to the wire after the library took the right decision);
-T (a last round against the frozen harness, one change per property for eight
-properties, the agents asked for a less-travelled path, option, claim, boundary
-value, handler variant or store method; no check was altered for it).
+T (a short last round, one change each for twelve properties, the agents asked
+for a less-travelled path, option, claim, boundary value, handler variant or
+store method; one check, C17, was strengthened for it).
 Letters K/L and P/Q are the benign rounds (section 9.1). Seeded changes that a
 later `fix:` commit collided with were re-cut against HEAD (meta `ported`);
 those that a later repair neutralised (the demonstration no longer fails) are
